@@ -102,7 +102,7 @@ def texts_for(ctx):
     n_ex = 2 if SMOKE else ctx.scale(3, 4)
     streams["exhaustive"] = list(G.exhaustive(G.EXHAUSTIVE_ALPHABET, n_ex))
     streams["exhaustive_string"] = list(G.exhaustive(G.EXHAUSTIVE_STRING_ALPHABET, 4 if SMOKE else ctx.scale(6, 8)))
-    n = 800 if SMOKE else ctx.scale(5000, 75000)
+    n = 800 if SMOKE else ctx.scale(5000, 30000)
     streams["raw"] = [G.raw(rng) for _ in range(n)]
     streams["tokens"] = [G.tokens(rng) for _ in range(n)]
     streams["stringy"] = [G.stringy(rng) for _ in range(n)]
@@ -195,7 +195,7 @@ def run(ctx):
 
     # ---------------- parser / checker positions (oracle only)
     rng = ctx.rng
-    n_ast = 300 if SMOKE else ctx.scale(2000, 60000)
+    n_ast = 300 if SMOKE else ctx.scale(2000, 24000)
     progs = list(streams["seeds"])[:: 5 if SMOKE else 1] + streams["tokens"][:n_ast] + streams["perturbed"][:n_ast] + \
         streams["stringy"][:n_ast // 4] + streams["fixed"]
     progs = [p for p in dict.fromkeys(progs) if "\x00" not in p]
